@@ -42,6 +42,8 @@ STRAIGHT = [
          writes=["QoS", "noLocal", "retainAsPublished", "retainHandling"], ret="Int"),
     dict(file="FnValidate", src="client.py", qual="Client._filter_wildcard_len_check", name="filterWildcardLenCheck",
          params=[("sub", "Bytes")], attrs=[], writes=[], ret="Int"),
+    dict(file="FnInfo", src="client.py", qual="MQTTMessageInfo.is_published", name="isPublished", params=[],
+         attrs=[("rc", "Int"), ("_published", "Bool")], writes=[], ret="Bool"),
     dict(file="FnValidate", src="client.py", qual="Client._raise_for_invalid_topic", name="raiseForInvalidTopic",
          params=[("topic", "Bytes")], attrs=[], writes=[], ret="Unit", falls_off=True),
 ]
@@ -75,7 +77,7 @@ CALLBACKS = [
     dict(file="FnHelpers", src="publish.py", qual="_on_publish", name="pubOnPublish", state="List PyPubMsg", params=[],
          calls={"_do_publish": "doPublish"}),
 ]
-EXC = {"ValueError": ".valueError", "TypeError": ".typeError", "AssertionError": ".assertionError", "IndexError": ".indexError", "MQTTException": ".mqttException"}
+EXC = {"ValueError": ".valueError", "TypeError": ".typeError", "AssertionError": ".assertionError", "IndexError": ".indexError", "MQTTException": ".mqttException", "RuntimeError": ".runtimeError"}
 RESERVED = {"bytes": "bytes_", "end": "end_", "from": "from_", "at": "at_", "open": "open_"}
 
 
@@ -335,7 +337,8 @@ class Tr:
                 v, t = self.expr(ast.BinOp(left=s.target, op=s.op, right=s.value))
                 out.append(f"{pad}self_{s.target.attr.lstrip('_')} := {v}")
             elif isinstance(s, ast.With) and len(s.items) == 1 and isinstance(s.items[0].context_expr, ast.Attribute) \
-                    and s.items[0].context_expr.attr.endswith("_mutex") and s.items[0].optional_vars is None:
+                    and (s.items[0].context_expr.attr.endswith("_mutex") or s.items[0].context_expr.attr == "_condition") \
+                    and s.items[0].optional_vars is None:
                 out += self.stmts(s.body, ind, ctl)
             elif isinstance(s, ast.AugAssign) and isinstance(s.target, ast.Name):
                 v, t = self.expr(ast.BinOp(left=ast.Name(id=s.target.id, ctx=ast.Load()), op=s.op, right=s.value))
